@@ -63,8 +63,10 @@ func (a Any) ReferenceOrigins(ctx context.Context) reference.Origins {
 			Elems: make([]schema.Constraint, len(elemTypes)),
 		}
 		for i, elemType := range elemTypes {
-			cons.Elems[i] = schema.LiteralType{
-				Type: elemType,
+			// elements may be arbitrary expressions of the element type
+			// (incl. references), not just literals
+			cons.Elems[i] = schema.AnyExpression{
+				OfType: elemType,
 			}
 		}
 
@@ -105,7 +107,7 @@ func (a Any) ReferenceOrigins(ctx context.Context) reference.Origins {
 			expr:    a.expr,
 			pathCtx: a.pathCtx,
 			cons: schema.Object{
-				Attributes:            ctyObjectToObjectAttributes(typ),
+				Attributes:            ctyObjectToAnyExprObjectAttributes(typ),
 				AllowInterpolatedKeys: true,
 			},
 		}
@@ -183,4 +185,17 @@ func (a Any) refOriginsForNonComplexExpr(ctx context.Context) reference.Origins 
 		}
 	}
 	return origins
+}
+
+// ctyObjectToAnyExprObjectAttributes converts an object type to attributes
+// which may hold arbitrary expressions of the attribute's type
+// (incl. references), as opposed to just literals.
+func ctyObjectToAnyExprObjectAttributes(objType cty.Type) schema.ObjectAttributes {
+	objAttributes := ctyObjectToObjectAttributes(objType)
+	for name, aSchema := range objAttributes {
+		aSchema.Constraint = schema.AnyExpression{
+			OfType: objType.AttributeType(name),
+		}
+	}
+	return objAttributes
 }
